@@ -31,8 +31,11 @@ def history(plan, rnd, nsteps, dense_until):
             lines.append("M %d" % c); added[c] += 1
         elif r < 0.96:
             lines.append("C " + rnd.choice(KINDS)); ncont += 1; added.append(0)
-        else:
+        elif r < 0.985:
             lines.append("W %d" % rnd.randrange(1, 9))
+        else:
+            # a burst of long fresh words: the string arena rolls over to a new pool every MiB
+            lines.append("S %d %d" % (rnd.choice([20, 60]), rnd.choice([700, 5000, 17000])))
         if s < dense_until:
             lines.append("CHECK all")
         else:
@@ -138,7 +141,7 @@ def check(res):
         res.violation("coq:Properties_C05.v", "proof obligation no longer checks", {"theorem_file": "Properties_C05.v", "error": coq_error_excerpt(out, "Properties_C05.v")}, no_input=True)
     res.coverage.update({
         "evaluations": tot["steps"], "distinct_nontrivial": tot["nodes"],
-        "rule": "seeded construction histories under ASan+UBSan: 50% calls of a factory drawn from the complete regenerated factory list with random "
+        "rule": "seeded construction histories under ASan+UBSan (1.5% of the steps intern a burst of 20-60 fresh words of 0.7-17 KB, so that the string arena rolls over several pools): 50% calls of a factory drawn from the complete regenerated factory list with random "
                 "operands, 43% member additions aimed mostly at a few long-lived containers (enumerators, parameters, bases and fields, handlers and "
                 "statements, expression-list elements, namespace variables, module units) so that every backing store grows through many blocks, 3% new "
                 "containers, 4% products built from a temporary Warehouse that is destroyed at once; every returned node is remembered with its address and "
